@@ -9,32 +9,51 @@ Oracle (no model): per build the two universes have the same exit class and the 
                output it read, so a missing or stale dependency output shows up in these bytes).
 """
 from checks import _hist as H
+import vlib
 
 PROPERTY = "C15"
 LEVEL = "proof"
-LEVEL_TEXT = ("Lean 4 theorems about the per-target decision model in both modes: from equal caches the hit/execute decision, the "
-              "verdict and the key do not depend on the mode (per-step lemma), every command that starts in minimal mode finds the "
-              "declared outputs of its direct dependencies materialised with the values their output hashes encode "
-              "(deps_present_at_exec, no load faults), and what a minimal build materialises equals the stored values. The lock-step "
-              "statement over whole histories is stated in full and proved without load faults as same_verdict_and_execs_partial. "
+LEVEL_TEXT = ("Lean 4 theorems about the decision model in both modes: from equal caches the hit/execute decision, the verdict and the key "
+              "do not depend on the mode (per-step lemmas); a lock-step simulation `Rel` between the run in mode all and the run in mode "
+              "minimal (Lemmas/BuildMinimal.lean) gives deps_present_at_exec_holds — when a command starts in minimal mode, "
+              "LoadDependencyOutputs has succeeded with the fuel the build provides, re-run nothing, and every declared output of every "
+              "direct dependency is materialised with, path by path, the value mode all has in its workspace (deps_current_at_exec: the "
+              "value its output hash encodes) — and same_verdict_and_execs_holds — for every well-formed history of edits, taints and "
+              "builds with any flags, run in lock step in both modes over separate caches, every build has the same verdict, the same "
+              "per-target verdicts, the same executed commands in the same order and leaves the same cache. "
               "Tied by lock-step history correspondence against the real CLI in both modes.")
-LEVEL_NOTE = ("Partial: cache faults while dependency outputs are loaded are not injected on the real side and the fault branch of "
-              "LoadDependencyOutputs (re-running a dependency) is modelled and exercised only through unrestorable results "
-              "(no-cache / cache-disabled results, lost blobs), not through backend errors.")
+LEVEL_NOTE = ("The lock-step theorem excludes histories with lost blobs (dropBlob steps; CasOK — every blob a stored result names is in the "
+              "CAS — is required at the start and preserved by every other step): with a lost blob mode all re-executes an irretrievable "
+              "target when it reaches it, minimal only when an executing direct dependant needs it; these histories are generated (family "
+              "lostblob) and compared by the oracle modulo that. Hypotheses of the theorems: injective key (Good P), the repairs "
+              "minValidate / rerunOnce / loadFault in the modelled code, well-formed builds (WF, dependency lists = direct dependencies "
+              "without duplicates, declared outputs disjoint from inputs and check files over the whole history). A read fault on a stored "
+              "target result while dependencies are loaded is injected in-process (overlay test with a failing backend). The handlers' "
+              "local-digest short cut (restore from a matching workspace file without the blob) is not modelled.")
 TECHNIQUE = "Lean 4 proof over an executable model + lock-step history correspondence (all vs minimal) with the real CLI"
 OBLIGATIONS = [
     "Grog.C15.same_decision_step",
     "Grog.C15.same_status_step",
     "Grog.C15.materialised_equal",
+    "Grog.C15.deps_present_at_exec_holds",
+    "Grog.C15.deps_current_at_exec",
+    "Grog.C15.same_verdict_and_execs_holds",
     "Grog.C15.nocache_rerun_witness",
+    "Grog.C15.load_fault_witness",
 ]
 ASSUMPTIONS = [
-    "no cache-backend faults during dependency loading (partial claim)",
+    "lock-step theorem: histories without lost blobs (no dropBlob step; CasOK at the start), well-formed builds (BuildOK)",
     "cache key injective (C09), restore exact (C06), atomic per-target steps",
 ]
 
-FAMILIES_QUICK = [("edits", 8), ("wipe", 10), ("alias", 6), ("nocache", 8), ("tamper", 5), ("disabled", 4), ("taint", 3)]
+FAMILIES_QUICK = [("edits", 4), ("wipe", 6), ("lostblob", 6), ("dirs", 3), ("alias", 2), ("aliaswipe", 5), ("nocache", 5), ("tamper", 3), ("disabled", 3), ("taint", 2)]
 FAMILIES_THOROUGH = [(f, n * 15) for f, n in FAMILIES_QUICK]
+
+
+def lost_owners(h, ws):
+    """targets owning an output whose CAS blob a `drop` step of the history removed"""
+    paths = {s["path"] for s in h["steps"] if s["k"] == "drop"}
+    return {l for l, t in ws["targets"].items() for o in H.all_outs(t) if H.out_path(t, o) in paths}
 
 
 def run(ctx):
@@ -46,7 +65,9 @@ def run(ctx):
             hists.append(H.gen_history(ctx.rng, fam))
     ctx.coverage["rule"] = ("layered DAGs of 2-6 targets (aliases incl. chains, no-cache tags in the nocache/taint families); histories of edits / "
                             "tampering / taints / cache-disabled builds with random selections, each run twice in lock-step (all, minimal) "
-                            "in separate workspaces and cache roots; families: " + ", ".join("%s x%d" % f for f in fams) +
+                            "in separate workspaces and cache roots (wipe = fresh checkout with a warm cache / sources reverted; lostblob = chain with the "
+                            "blob of the middle target lost and its workspace copy removed; dirs = directory outputs whose entry set follows the inputs, "
+                            "tampered in place); families: " + ", ".join("%s x%d" % f for f in fams) +
                             "; non-trivial = distinct history with >=2 builds, one executing and one with a hit (in the minimal universe)")
     grog = ctx.grog_binary()
     if not grog:
@@ -76,15 +97,19 @@ def run(ctx):
                     "all": {"ok": o_all["ok"], "executed": o_all["executed"]}, "minimal": {"ok": om["ok"], "executed": om["executed"]}}
             if om["ok"] != o_all["ok"]:
                 return ("a build succeeds under one load_outputs mode and fails under the other", base, "verdict-differs")
-            if set(om["executed"]) != set(o_all["executed"]):
+            # a target whose blob was lost is irretrievable: mode all re-executes it when it reaches it, minimal only when an
+            # executing direct dependant needs its outputs — that difference is the purpose of minimal, not a defect
+            lost = lost_owners(h, ws)
+            ex_all = [x for x in o_all["executed"] if x not in lost or x in om["executed"]]
+            if set(om["executed"]) != set(ex_all):
                 return ("the two load_outputs modes execute different sets of commands", base, "executed-set-differs")
-            if sorted(om["executed"]) != sorted(o_all["executed"]):
+            if sorted(om["executed"]) != sorted(ex_all):
                 return ("minimal mode executes a command more often than mode all", base, "executed-multiset-differs")
             for l in set(om["executed"]):
                 t = ws["targets"].get(l)
                 if t is None or not om["ok"]:
                     continue
-                for op in t["outs"]:
+                for op in H.all_outs(t):
                     p = H.out_path(t, op)
                     if count:
                         cnt["outputs_compared"] += 1
@@ -105,6 +130,23 @@ def run(ctx):
         if bad:
             cnt["oracle_failures"] += 1
             ctx.violation(bad[0], bad[1], signature=bad[2])
+    # --- cache fault while dependency outputs are being loaded (in-process, real Executor, fault-injecting backend) ---------
+    rc, out = vlib.go_test("./internal/execution/", "TestVerifLoadFault", timeout=600)
+    cnt["inprocess_load_fault_tests_rc"] = rc
+    if rc != 0:
+        sigs = [("VERIF-LOADFAULT-DEP-MISSING", "load-fault:remaining-dependencies-not-loaded",
+                 "after a read fault on the stored result of one dependency the dependant's command ran without the outputs of its remaining dependencies"),
+                ("VERIF-LOADFAULT-RERUN-WITHOUT-DEPS", "load-fault:rerun-without-own-dependencies",
+                 "a dependency re-run after a read fault on its stored result did not find the outputs of its own dependencies")]
+        hit = False
+        for marker, sig, what in sigs:
+            if marker in out:
+                hit = True
+                cnt["oracle_failures"] += 1
+                ctx.violation(what, {"kind": "oracle", "oracle": "in-process Executor in minimal mode with a backend that fails one Get of a target result "
+                                     "(harness/intest/internal/execution/x_loadfault_verif_test.go)", "output": out[-2000:]}, signature=sig)
+        if not hit:
+            ctx.harness_broken("the overlaid in-package fault tests of execution could not be run against the current tree", out)
     ctx.coverage.update(cnt)
     bad = [r for r in rec_min if r["diffs"]]
     ctx.coverage["disagreements"] = len(bad)
@@ -115,6 +157,10 @@ def run(ctx):
 
 
 def replay(ctx, rep):
+    if str(rep.get("signature", "")).startswith("load-fault:"):
+        rc, out = vlib.go_test("./internal/execution/", "TestVerifLoadFault", timeout=600)
+        print(out[-2000:])
+        return 1 if rc else 0
     h = rep.get("history")
     if not h:
         print("nothing to replay in this file (see 'kind')")
